@@ -31,6 +31,14 @@ UNSUPPORTED = [
 ]
 
 
+# a class one of whose public bases cannot be resolved (moc lists plain C++ interfaces too) is still not a TSource
+BROKEN_BASE = [
+    ("ptr: br", False), ("sub: br", False), ("ptr: a.flag ? br : a", False), ("ptr: { if (a.flag) { return br } return null }", False),
+    ("onPlain: a.actPtr(br)", False), ("onPlain: { a.ptr = br }", False), ("flag: br == a", False),
+    ("ptr: a", True), ("text: br.windowTitle", True), ("onPlain: { br.enabled = a.flag }", True), ("ptr: a.flag ? a : null", True),
+]
+
+
 def const_undefined(e):
     """a maximal literal-only sub-expression whose value is undefined is rightly rejected (C03): excluded here"""
     def is_const(x):
@@ -116,6 +124,12 @@ def run(chk):
     ill = [("handler" if "sig" in p else "binding", p) for p in P.tlc_programs(chk, "GenIll", 100, chk.seed)]
     if quick and len(ill) > 2500:
         ill = r.sample(ill, 2500)
+    # list literals (empty list first / second, against lists, pointers, null, scalars): both verdicts from Typing.tla
+    for p in P.tlc_programs(chk, "GenList", 100, chk.seed):
+        if p["ok"]:
+            good.append(("binding", p))
+        else:
+            ill.append(("binding", dict(p, why="list / pointer / scalar mix judged ill typed by Typing.tla")))
     reqs, meta = [], {}
     for n, (kind, p) in enumerate(good):
         src = P.binding_doc([p])[0] if kind == "binding" else P.handler_doc([p])
@@ -129,6 +143,10 @@ def run(chk):
         src = P.HEAD + "  TSource { id: t0\n    ival: " + text + "\n  }\n}\n"
         reqs.append({"id": "u%d" % n, "src": src, "type_name": "Doc", "modes": ["generate"]})
         meta["u%d" % n] = ("unsupported", "binding", {"text": text}, src)
+    for n, (text, ok) in enumerate(BROKEN_BASE):
+        src = P.HEAD + "  TBroken { id: br }\n  TSource { id: t0\n    " + text + "\n  }\n}\n"
+        reqs.append({"id": "b%d" % n, "src": src, "type_name": "Doc", "modes": ["generate"]})
+        meta["b%d" % n] = ("brokenbase-good" if ok else "unsupported", "binding", {"text": text, "why": "object of a class with an unresolvable base used as a TSource"}, src)
     res = translate(reqs, metatypes=[VERIF_METATYPES])
     n_good_rej = n_ill_ok = 0
     skipped_cu = 0
@@ -137,6 +155,11 @@ def run(chk):
         if run_.get("panic") or run_.get("timeout") or run_.get("crash"):
             continue    # totality is C07's property
         accepted = P.is_accepted(run_) and not run_.get("syntax_error")
+        if cls == "brokenbase-good":
+            chk.count(p, nontrivial=True)
+            if not accepted:
+                chk.violation("well-typed program not accepted: %s -> %s" % (p["text"], [d["msg"] for d in run_.get("diags", [])][:2]), {"qml": src, "diagnostics": run_.get("diags")})
+            continue
         if cls == "good":
             if const_undefined(p["body"]):
                 skipped_cu += 1
